@@ -19,7 +19,9 @@ pub fn exec(rec: &Value, _st: &mut State) -> Value {
             let s = (2.0f64).powi(gi_or(rec, "sc", 0) as i32);
             let pts: Vec<Point2> = gvvi(rec, "pts").iter().map(|p| Point2::new(p[0] as f64 * s, p[1] as f64 * s)).collect();
             let line = Polyline::new(pts.clone(), None);
-            let curve = Curve2::from_points(&pts, s / 1048576.0, false).expect("curve");
+            // optional curve tolerance (sixteenths of a lattice unit): crossings closer together than the tolerance are still two crossings
+            let ctol = match gi_or(rec, "ctol16", 0) { 0 => s / 1048576.0, k => k as f64 / 16.0 * s };
+            let curve = Curve2::from_points(&pts, ctol, false).expect("curve");
             let o = gvi(rec, "o");
             let origin = Point2::new(o[0] as f64 * s, o[1] as f64 * s);
             let mut outs = vec![];
